@@ -32,7 +32,7 @@ def queue_rules(retry=3, streams=2, ring=3, extra=None):
 # the run fails loudly.  Harnesses flagged teardown=True keep the body.
 NO_TEARDOWN_CUT = [r'3Arc.*(10MultiQueue|7FutWait).*9drop_slow']
 
-DEFAULT = dict(unwind=4, rules=queue_rules(), mem_gb=16, timeout=900)
+DEFAULT = dict(unwind=4, rules=queue_rules(), mem_gb=16, timeout=780)
 
 ASSUMPTIONS = [
     "sequential consistency: the cfg(multiqueue2_verif) shim atomics ignore Ordering arguments and fences are no-ops",
@@ -354,7 +354,7 @@ H("c16_wq_drop_ptrwin", M, "C16", ["C16", "C11"], "thorough",
   "19 pre-loaded retirements, window: pointer cells + locks + allocation calls, budget 4, up to 4 ops per site", rules=MEMRULES, fp_restrict=FP, builtin_oracle=True, unwind=6, mem_gb=24, teardown=True, timeout=3000)
 H("c18_mp_frozen_recv", T, "C18", ["C18", "C01", "C06"], "quick",
   "mpmc: the consumer is frozen at a solver-chosen shared access of try_recv while one producer's try_send runs alone: bounded own steps, bounded retry loops",
-  "N=2, budget 1")
+  "N=2, budget 1", optional_covers=OPT_PREFIX)
 H("c18_bc_frozen_send", T, "C18", ["C18", "C01", "C03", "C06"], "quick",
   "broadcast shared stream: the producer is frozen at a solver-chosen shared access of try_send (e.g. slot claimed, not yet published) while one consumer's try_recv runs alone",
   "N=2, prefix <=1/<=1, budget 1")
